@@ -64,6 +64,26 @@ package meta
 //@   property C02
 //@   loop 1 iteration [already_marked_object_is_not_counted_again] garbKeyPresent() ==> diff.NewGarbage == old(diff.NewGarbage) && diff.PayloadDiff == old(diff.PayloadDiff)
 
+// The payload a removal takes off the container's size is that of an object whose header
+// is stored in this metabase: the header lookups in the marking paths are raw (no header is
+// reconstructed for a virtual split parent - its parts are stored objects of their own and
+// are subtracted one by one).
+//@ callrule c02_stored_headers_only in markGarbageInContainer, handleObjectWithAssociation
+//@   property C02
+//@   callee metabase.get
+//@   pureeffect
+//@   requires [raw_lookup_no_virtual_parent] a3
+
+// Reviving an object removes its garbage mark and nothing else from the index: the object
+// was counted by type, as physical and as root all along (those counters follow the index,
+// and the recount derives them from it), so reviving may restore only the payload estimate
+// that the removal took off (the garbage counter is adjusted by the caller).
+//@ callrule c02_revive_touches_only_the_payload_estimate in reviveCounters
+//@   property C02
+//@   callee metabase.updateCounter
+//@   pureeffect
+//@   requires [type_counters_follow_the_index_not_the_marks] a1 == payloadCounter
+
 //@ ghost pred metaDiffGC() int
 //@ ghost pred metaDiffPhy() int
 //@ ghost pred metaDiffPayload() int64
@@ -152,6 +172,18 @@ package meta
 //@   callee (*bbolt.Bucket).Put
 //@   pureeffect
 //@   requires [no_mark_for_a_locked_target] targetNotLocked()
+// C09: a stored tombstone leaves a garbage mark for its target and for every child of the
+// target, whether or not their headers are (still, already) known to the metabase - an
+// object that arrives or is re-indexed later must find the mark.
+//@ ghost field garbageMarksPut(x int) int
+//@ callrule c09_tombstone_garbage_mark in handleObjectWithAssociation
+//@   property C09
+//@   callee (*bbolt.Bucket).Put
+//@   assigns garbageMarksPut
+//@   defines garbageMarksPut(0) == old(garbageMarksPut(0)) + 1
+//@ func handleObjectWithAssociation
+//@   property C09
+//@   loop 1 iteration [every_member_gets_a_garbage_mark] garbageMarksPut(0) == old(garbageMarksPut(0)) + 1
 //@ func handleObjectWithAssociation
 //@   property C07
 //@   ensures [lock_on_tombstoned_target_rejected] err == nil && typ == object.TypeLock ==> targetStatus() != statusTombstoned
@@ -162,6 +194,25 @@ package meta
 // removal mark first (a removed container lists nothing, whatever the cursor); the listing
 // never exceeds the limit; listWithCursor forgets the object position when it moves on to
 // another container and reports the end exactly when nothing was listed.
+
+// Removing a container leaves the removal mark in the container's bucket whenever it
+// reports success - also when the shard holds nothing of the container yet (objects that
+// arrive later must still be hidden from listings).
+//@ ghost pred containerRemovalMarkWritten() bool
+//@ callrule c06_removal_mark_write in (*DB).InhumeContainer$1
+//@   property C06
+//@   callee (*bbolt.Bucket).Put
+//@   pureeffect
+//@   defines err == nil && samearray(a0, containerGCMarkKey) ==> containerRemovalMarkWritten()
+//@ func (*DB).InhumeContainer$1
+//@   property C06
+//@   ensures [removal_mark_written_whenever_the_removal_succeeds] err == nil ==> containerRemovalMarkWritten()
+
+// Marking a batch of objects as garbage reports success only after the whole batch was
+// handled (an object left unmarked by a "successful" removal stays listed and readable).
+//@ func markGarbageInContainer
+//@   property C06 C09
+//@   ensures [success_only_after_the_whole_batch] err == nil ==> !inloop(1)
 
 //@ ghost pred containerRemovalChecked() bool
 //@ ghost pred containerRemoved() bool
